@@ -20,10 +20,11 @@ CONSTANTS
   MaxTokens = 4
   Exchanges <- MCNoExchanges
   XFormats <- MCNoFormats
+  MaxServes = 1
 INVARIANTS TypeOK RejectIffInvalid OneLine DecSane PrintEvents PrintFormatters
 CHECK_DEADLOCK FALSE
 """
-XCFG = """SPECIFICATION XGenSpec
+XCFG = """SPECIFICATION %(spec)s
 CONSTANTS
   Tokens <- MCTokens
   DeepTokens <- MCDeepQuick
@@ -31,7 +32,8 @@ CONSTANTS
   MaxTokens = 4
   Exchanges <- %(exchanges)s
   XFormats <- MCXFormats
-INVARIANTS TypeOK RejectIffInvalid OneLine EventFaithful PrintExchanges
+  MaxServes = %(serves)d
+INVARIANTS TypeOK RejectIffInvalid OneLine EventFaithful LineIndependent %(extra)s
 CHECK_DEADLOCK FALSE
 """
 
@@ -103,7 +105,8 @@ def run(ctx):
 
     # event construction: exchanges over real sockets (client -> HTTPProxy -> scripted upstreams)
     xcases = os.path.join(ctx.tmp, "c20.xcases")
-    gx = ctx.tlc("AccessLog_MC", cfg_text=XCFG % dict(exchanges=ctx.pick("MCExchangesQuick", "MCExchanges")), workers=4,
+    gx = ctx.tlc("AccessLog_MC", cfg_text=XCFG % dict(spec="XGenSpec", exchanges=ctx.pick("MCExchangesQuickH", "MCExchangesH"),
+                                      serves=1, extra="PrintExchanges"), workers=4,
                  json_sink=xcases, coverage=ctx.thorough, timeout=ctx.pick(200, 900))
     ctx.log("AccessLog exchanges: %d states, %.0fs" % (gx.distinct, gx.wall))
     if not ctx.need_tlc_ok(gx, "AccessLog exchange Gen"):
@@ -112,10 +115,28 @@ def run(ctx):
         ctx.inconclusive("AccessLog exchanges: actions never taken: %s" % gx.coverage0)
         return
     ctx.cover("xgen", states=gx.distinct, transitions=gx.generated)
-    rx = gorun(ctx, "proxy", "^TestVerifC20Exchange$", xcases, "C20 exchanges", timeout=1200)
+    xhist = os.path.join(ctx.tmp, "c20.xhist")
+    gxh = ctx.tlc("AccessLog_MC", cfg_text=XCFG % dict(spec="XHistSpec", exchanges="MCHistExchanges", serves=ctx.pick(2, 3), extra=""),
+                  workers=4, json_sink=xhist, coverage=ctx.thorough, timeout=300)
+    if not ctx.need_tlc_ok(gxh, "AccessLog exchange histories"):
+        return
+    if ctx.thorough and gxh.coverage0:
+        ctx.inconclusive("AccessLog exchange histories: actions never taken: %s" % gxh.coverage0)
+        return
+    nxh = sum(1 for _ in open(xhist))
+    ctx.log("AccessLog exchange histories: %d histories of %d exchanges through one proxy, %.0fs" % (nxh, ctx.pick(2, 3), gxh.wall))
+    if nxh < 40:
+        ctx.inconclusive("only %d exchange histories generated" % nxh)
+        return
+    ctx.cover("xhist", states=gxh.distinct, transitions=gxh.generated)
+    rx = gorun(ctx, "proxy", "^TestVerifC20Exchange$", xcases, "C20 exchanges", env={"VERIF_C20_XHIST": xhist}, timeout=1200)
     if rx is None:
         return
     sx = rx.summary
+    ctx.log("exchange histories: %d replayed through one proxy + logger (%d exchanges); %d unprescribed line parts compared with a proxy that served nothing before"
+            % (sx.get("histories", 0), sx.get("history_exchanges", 0), sx.get("independent_parts", 0)))
+    if sx.get("histories", 0) < 40 or sx.get("independent_parts", 0) < 20:
+        ctx.inconclusive("exchange history part incomplete: %s" % json.dumps({k: sx.get(k) for k in ("histories", "independent_parts")}))
     ctx.log("exchanges: %d played over loopback (%s; %d skipped: no IPv6 loopback), %d line parts compared, %d control runs, %d oracle disagreements, %d failed, %.0fs"
             % (sx["ran"], json.dumps(sx["kinds"], sort_keys=True), sx["skipped_no_ipv6"], sx["parts_compared"], sx["controls"],
                sx["oracle_disagreements"], sx["fails"], rx.wall))
@@ -153,11 +174,32 @@ def run(ctx):
     if not any(r.get("features", {}).get("clause") == "event-status" for r in rs.of_kind("fail")):
         ctx.inconclusive("binding self-test: a corrupted prescribed status of an exchange was NOT rejected by the harness")
 
-    ru = gorun(ctx, "uuid", "^TestVerifC20UUID$", cases, "C20 uuid", env={"VERIF_C20_UUID": ctx.pick(100000, 3000000)})
+    # concurrent calls of the formatters: the design (a buffer per call) satisfies Correct, and the
+    # model is not vacuous: with one shared buffer TLC finds the schedule that mixes two calls
+    ucfg = "SPECIFICATION Spec\nCONSTANTS\n Calls <- MCCalls\n Arg <- MCArg\n Shared = %s\nINVARIANT Correct\nCHECK_DEADLOCK FALSE\n"
+    uc = ctx.tlc("UuidConc_MC", cfg_text=ucfg % "FALSE", workers=2, timeout=120)
+    if not ctx.need_tlc_ok(uc, "UuidConc"):
+        return
+    ucs = ctx.tlc("UuidConc_MC", cfg_text=ucfg % "TRUE", workers=2, timeout=120)
+    if ucs.violated != "Correct":
+        ctx.inconclusive("UuidConc: the shared-buffer variant of the model does not violate Correct (vacuous model): %s %s" % (ucs.violated, ucs.error))
+        return
+    ctx.cover("conc", states=uc.distinct, transitions=uc.generated)
+    ru = gorun(ctx, "uuid", "^TestVerifC20UUID$", cases, "C20 uuid",
+               env={"VERIF_C20_UUID": ctx.pick(100000, 3000000), "VERIF_C20_UUID_CONC": ctx.pick(400000, 4000000)})
     if ru is None:
         return
     su = ru.summary
-    ctx.log("uuid: %d values (%d defined by the spec), %d failed, %.0fs" % (su["ran"], su["spec_cases"], su["fails"], ru.wall))
+    if ctx.thorough:
+        rr = ctx.gotest("uuid", ["uuid/c20_test.go"], "^TestVerifC20UUID$", race=True, timeout=900,
+                        env={"VERIF_IN": cases, "VERIF_C20_UUID": 20000, "VERIF_C20_UUID_CONC": 200000})
+        if ctx.need_go_ok(rr, "C20 uuid -race"):
+            ctx.take_failures(rr, "uuid")
+            if "WARNING: DATA RACE" in rr.out and not rr.of_kind("fail"):
+                ctx.inconclusive("C20 uuid: the race detector reports a data race in concurrent uuid.ToString calls although every call returned its own rendering:\n%s" % rr.out[-1500:])
+    ctx.log("uuid: %d values (%d defined by the spec, %d from 16 concurrent callers), %d failed, %.0fs" % (su["ran"], su["spec_cases"], su.get("concurrent", 0), su["fails"], ru.wall))
+    if su.get("concurrent", 0) < 100000:
+        ctx.inconclusive("uuid harness made only %s concurrent calls" % su.get("concurrent"))
     if su["spec_cases"] < 4:
         ctx.inconclusive("uuid harness saw no specification cases")
     ctx.cover("uuid", evaluations=su["ran"])
